@@ -26,6 +26,14 @@ func init() {
 			for _, p := range []int{1, 2, 4, 16} {
 				bs = append(bs, Batch{Name: fmt.Sprintf("p%d", p), Args: map[string]string{"procs": fmt.Sprint(p)}, Race: true, Procs: p, Weight: min(p, 4)})
 			}
+			// real flood-control sleeps (up to 6.25 s each): few scenarios, one batch each so that they run side by side
+			nf := 4
+			if tier == "thorough" {
+				nf = 16
+			}
+			for i := 0; i < nf; i++ {
+				bs = append(bs, Batch{Name: fmt.Sprintf("flood-%d", i), Args: map[string]string{"procs": "4", "mode": "flood", "k": fmt.Sprint(i)}, Race: true, Procs: 4, Weight: 1})
+			}
 			if tier == "thorough" {
 				for i := 0; i < 12; i++ {
 					p := []int{1, 2, 4, 16}[i%4]
@@ -151,6 +159,30 @@ func runC07(c *Ctx) {
 	procs, salt := c.Arg("procs", "?"), c.Arg("salt", "")
 	logger := rig.NewCapLogger(nil)
 	logger.Discard = func(r *rig.LogRecord) bool { return true }
+	if c.Arg("mode", "") == "flood" {
+		k := c.ArgInt("k", 0)
+		causes := []string{"close", "eof", "cancel", "readerr", "writeerr", "close"}
+		sc := lifeSc{Cycles: 1 + k%2, InSegs: "one", Inbound: []int{0, 40, 100}[k%3], Outbound: []int{12, 40, 80}[k%3], OutBy: []string{"handler", "users"}[k%2], Users: 2,
+			Server: "reading", Handler: []string{"raw", "idle"}[k%2], Causes: []string{causes[k%len(causes)]}, Reconnect: "none", FloodOn: true, Procs: procs}
+		if sc.Handler == "raw" {
+			sc.OutBy = "handler"
+		}
+		if sc.Cycles > 1 {
+			sc.Reconnect = []string{"other", "handler"}[(k/2)%2]
+		}
+		sc.UseCtx = sc.Causes[0] == "cancel"
+		if !c.Want("flood", k) {
+			return
+		}
+		c.J.Log("CASE %s %s", Case("flood", k), sc.String())
+		o := runLife(c, sc, "C07", "flood", k)
+		reportLife(c, "C07", "flood", k, sc, o)
+		if o.Fingerprint != "" {
+			c.R.Class("flood|" + o.Fingerprint)
+		}
+		c.R.Sample(map[string]interface{}{"scenario": sc.String(), "fingerprint": o.Fingerprint})
+		return
+	}
 	cur := c07Curated()
 	nRandom := c.Pick(400, 4000)
 	total := len(cur) + nRandom
